@@ -235,7 +235,10 @@ func classifyValidation(msg string) string {
 	} else if m := regexp.MustCompile(`\n    "type": "([a-z]+)"`).FindStringSubmatch(msg); m != nil {
 		typ = ":" + m[1]
 	}
-	return kind + ":" + reason + typ + where
+	// depth and schema type go into the report text only: which of several offending places the validator
+	// names first depends on its own map iteration, and a finding key must not
+	_, _ = typ, where
+	return kind + ":" + reason
 }
 
 func classifyValidationOld(msg string) string {
